@@ -16,18 +16,14 @@ def run(res, tier, seed):
                        "extracted checker x_solve_ok (compositions of Gauss.rank / mmul, independent of any solver code); Tier B: "
                        "A', P, Q, B bit-identical with Solve.solve_left_cfg / pluq_solve_left_model.  distinct by (entry point, shape "
                        "class, rank-profile style, cutoff, B mode, check, PLE regime, build)")
-    if os.path.exists(os.path.join(vlib.COQ, "Properties", "Properties_C06.v")):
-        engine.proof_part(res, PROOFS)
-    else:
-        engine.proof_part(res, [])
-        res.cov["proof_note"] = "coq/Properties/Properties_C06.v does not exist yet: correspondence only"
+    ops.proof_part(res, PROOFS[0])
     quick = tier == "quick"
     T = {"host": ops.Tiers(res, "C06", ops.VARIANTS["host"](vlib)), "stress": ops.Tiers(res, "C06", ops.VARIANTS["stress"](vlib))}
     res.cov["configurations"] = [dict(t.variant) for t in T.values()]
     ops.run_corpus(res, "C06", T)
-    T["host"].run(OPS, seed, 150 if quick else 1200, 130)
-    T["host"].run(OPS, seed + 1, 20 if quick else 250, 260 if quick else 600)
-    T["stress"].run(OPS, seed + 2, 60 if quick else 600, 200 if quick else 300)
+    T["host"].run(OPS, seed, 500 if quick else 4000, 130)
+    T["host"].run(OPS, seed + 1, 50 if quick else 400, 260 if quick else 600)
+    T["stress"].run(OPS, seed + 2, 200 if quick else 1500, 150 if quick else 300, rec_bias=0.5)
 
 
 def replay(res, path):
